@@ -258,6 +258,19 @@ def r18_4(rep):
                      (n["k"] == "Call" and (n.get("ctor") or n.get("callee") or "") == "syn::Item::Verbatim")]
     rep.check(not verb, "no-verbatim-items", "no pass or driver creates `syn::Item::Verbatim` (an opaque group of items that sorts as one)",
               verb[0][0].loc(verb[0][1]) if verb else d.loc(d.root))
+    # the two switches select passes and nothing else: code generation proper must not look at them, otherwise turning a pass on
+    # changes WHAT is emitted (attributes, blocks), not only how it is grouped
+    readers = []
+    for p, x in sorted(prog.bodies.items()):
+        if "postprocessing" in p or p.startswith(("options::", "<options::", "Builder::")) or "options::" in p.split(" as ")[0]:
+            continue
+        for n in x.nodes:
+            if n["k"] == "Field" and str(n.get("adt", "")).endswith("BindgenOptions") and n["f"] in ("merge_extern_blocks", "sort_semantically"):
+                readers.append((x, n))
+    rep.check(not readers, "pass-switches-read-only-by-the-pass-driver",
+              "`merge_extern_blocks` / `sort_semantically` are read by the pass table only" if not readers else
+              "`options.%s` is read in %s: enabling the pass changes what code generation emits" % (readers[0][1]["f"], readers[0][0].path[-60:]),
+              readers[0][0].loc(readers[0][1]) if readers else d.loc(d.root))
     # visitors
     for mod in ("merge_extern_blocks", "sort_semantically"):
         for meth, rec in (("visit_file_mut", "syn::visit_mut::visit_file_mut"), ("visit_item_mod_mut", "syn::visit_mut::visit_item_mod_mut")):
